@@ -309,7 +309,9 @@ OpenProg(f) ==
 
 \* DB.Close -> Head.Close -> WL.Close
 CloseLog(lg, l) == (IF LastSeg(lg).dirty THEN <<Mark(Flush(l))>> ELSE <<>>) \o <<Mark("wlog.closed/" \o l)>>
-CloseProg(f) == <<Mark("head.close.mmapped")>> \o CloseLog(f.wal, "wal")
+\* (the chunk disk mapper is flushed and closed first: everything m-mapped is on disk before a shutdown snapshot, which
+\*  relies on it, can appear)
+CloseProg(f) == <<Mark("head.close.mmapped"), Mark("cdm.closed")>> \o CloseLog(f.wal, "wal")
                 \o (IF WblOn THEN CloseLog(f.wbl, "wbl") ELSE <<>>) \o <<Mark("head.close.done"), Mark("closed")>>
 
 -----------------------------------------------------------------------------
